@@ -92,14 +92,17 @@ Definition new_ok (s : state) (n : nat) : Prop := S n = length (cfgs s) /\ cur s
 Definition phase_inv (s : state) : Prop :=
   match rst s with
   | RIdle => True
-  | RLoad n => new_ok s n
+  | RLoad n => new_ok s n /\ (forall a, ~ In n (fdh s a))
+  | RCb n => new_ok s n /\ fate_of s n <> 1 /\ (forall a, ~ In n (fdh s a))
   | RListen n todo => new_ok s n /\ incl todo (addrs_of s n) /\ fate_of s n <> 1 /\
-       (forall a, In a (addrs_of s n) -> ~ In a todo -> In n (fdh s a))
+       (forall a, In a (addrs_of s n) -> ~ In a todo -> In n (fdh s a)) /\
+       NoDup todo /\ (forall a, In a todo -> ~ In n (fdh s a))
   | RSpawn n todo => new_ok s n /\ incl todo (addrs_of s n) /\ fate_of s n = 0 /\
        (forall a, In a (addrs_of s n) -> In n (fdh s a)) /\
        (forall a, In a (addrs_of s n) -> ~ In a todo -> In n (acc s a))
   | RStop n todo => new_ok s n /\ NoDup todo /\ incl todo (addrs_of s (cur s)) /\ fate_of s n = 0 /\
-       (forall a, In a (addrs_of s n) -> In n (fdh s a) /\ In n (acc s a))
+       (forall a, In a (addrs_of s n) -> In n (fdh s a) /\ In n (acc s a)) /\
+       (forall a, In (cur s) (fdh s a) -> In a todo)
   end.
 
 (* the old instance still holds its descriptor and acceptor at [a] *)
@@ -108,6 +111,12 @@ Definition old_live (s : state) (a : nat) : Prop :=
 
 Definition is_new (s : state) (i : nat) : Prop :=
   match rst s with RSpawn n _ | RStop n _ => i = n | _ => False end.
+
+(* who may hold a descriptor of the socket at [a]: the instance in force, for an address of its
+   configuration, or the instance being started, for an address of its configuration — nobody
+   else (nothing leaks: startServers closes what it opened when a Listen fails) *)
+Definition holder_ok (s : state) (a i : nat) : Prop :=
+  (i = cur s /\ In a (addrs_of s (cur s))) \/ (pending s = Some i /\ In a (addrs_of s i)).
 
 Record Inv (s : state) : Prop := {
   i_cur : cur s < length (cfgs s);
@@ -121,7 +130,9 @@ Record Inv (s : state) : Prop := {
              cborn c <= cur s /\
              (forall i, accepted_by (cst c) = Some i ->
                         cborn c <= i /\ i < length (cfgs s) /\ In (caddr c) (addrs_of s i)) /\
-             (cst c = CQueued -> fdh s (caddr c) <> [])
+             (cst c = CQueued -> fdh s (caddr c) <> []);
+  i_fd : forall a i, In i (fdh s a) -> holder_ok s a i;
+  i_nd : forall a, NoDup (fdh s a)
 }.
 
 Lemma inv_init a0 blocked : nodupb a0 = true -> Inv (init a0 blocked).
@@ -135,6 +146,10 @@ Proof.
     destruct (mem a a0) eqn:E; simpl in Hi; [|contradiction].
     destruct Hi as [<-|[]]. simpl. split; [auto|]. split; [apply mem_In; exact E|]. left. auto.
   - intros k c H. destruct k; discriminate.
+  - intros a i Hi. unfold holder_ok, addrs_of. simpl.
+    destruct (mem a a0) eqn:E; simpl in Hi; [|contradiction].
+    destruct Hi as [<-|[]]. left. split; [reflexivity | apply mem_In; exact E].
+  - intros a. destruct (mem a a0); repeat constructor. intros [].
 Qed.
 
 Ltac dmatch H :=
@@ -156,110 +171,267 @@ Proof.
   - apply Nat.eqb_neq in E. right. split; [congruence | exact H].
 Qed.
 
+(* ---- the fields of [stop_old] ---- *)
+Lemma stop_old_fields s a :
+  cur (stop_old s a) = cur s /\ cfgs (stop_old s a) = cfgs s /\ sid (stop_old s a) = sid s /\
+  ext (stop_old s a) = ext s /\ rst (stop_old s a) = rst s /\ hist (stop_old s a) = hist s /\
+  fdh (stop_old s a) = upd (fdh s) a (rem (cur s) (fdh s a)) /\
+  acc (stop_old s a) = upd (acc s) a (rem (cur s) (acc s a)) /\
+  conns (stop_old s a) = (if isnil (rem (cur s) (fdh s a)) then reset_queued a (conns s) else conns s).
+Proof. unfold stop_old. destruct (isnil (rem (cur s) (fdh s a))); simpl; repeat split; reflexivity. Qed.
+
+Lemma close_inst_fields n s :
+  cur (close_inst n s) = cur s /\ cfgs (close_inst n s) = cfgs s /\ sid (close_inst n s) = sid s /\
+  ext (close_inst n s) = ext s /\ rst (close_inst n s) = rst s /\ hist (close_inst n s) = hist s /\
+  acc (close_inst n s) = acc s /\ fdh (close_inst n s) = (fun a => rem n (fdh s a)).
+Proof. unfold close_inst. simpl. repeat split; reflexivity. Qed.
+
+(* a queued connection whose socket keeps a descriptor is not touched by the shutdown of an old server *)
+Lemma stop_old_queued s a k c :
+  nth_error (conns s) k = Some c -> cst c = CQueued ->
+  upd (fdh s) a (rem (cur s) (fdh s a)) (caddr c) <> [] ->
+  nth_error (conns (stop_old s a)) k = Some c.
+Proof.
+  intros Hk Hq Hne. destruct (stop_old_fields s a) as (_ & _ & _ & _ & _ & _ & _ & _ & Fc). rewrite Fc.
+  destruct (isnil (rem (cur s) (fdh s a))) eqn:Enil; [|exact Hk].
+  unfold reset_queued. rewrite nth_error_map, Hk. simpl. rewrite Hq.
+  destruct (Nat.eqb (caddr c) a) eqn:Ea; [|reflexivity].
+  exfalso. apply Nat.eqb_eq in Ea. rewrite Ea, upd_same in Hne. apply isnil_true in Enil. contradiction.
+Qed.
+
+Lemma reset_conn_cases n s c :
+  let c' := match cst c with
+            | CQueued => if isnil (rem n (fdh s (caddr c))) then set_st c CReset else c
+            | _ => c
+            end in
+  c' = c \/ (cst c = CQueued /\ isnil (rem n (fdh s (caddr c))) = true /\ c' = set_st c CReset).
+Proof.
+  cbv zeta. destruct (cst c) eqn:Ec; auto. destruct (isnil (rem n (fdh s (caddr c)))) eqn:En; auto.
+Qed.
+
+(* Inv depends on the state up to [hist] and through the listed fields only *)
+Lemma inv_ext s s' :
+  Inv s -> cur s' = cur s -> cfgs s' = cfgs s -> rst s' = rst s -> fdh s' = fdh s -> acc s' = acc s ->
+  conns s' = conns s -> Inv s'.
+Proof.
+  intros [H1 H2 H3 H4 H5 H6 H7 H8] E1 E2 E3 E4 E5 E6.
+  constructor; unfold phase_inv, old_live, is_new, holder_ok, pending, addrs_of, fate_of, new_ok in *;
+    rewrite ?E1, ?E2, ?E3, ?E4, ?E5, ?E6; assumption.
+Qed.
+
+(* one old server is shut down (cleanly or with a drain timeout): RStop n (a :: t) -> RStop n t *)
+Lemma inv_stop_old s n a t s' :
+  Inv s -> rst s = RStop n (a :: t) ->
+  cur s' = cur s -> cfgs s' = cfgs s -> rst s' = RStop n t ->
+  fdh s' = fdh (stop_old s a) -> acc s' = acc (stop_old s a) -> conns s' = conns (stop_old s a) ->
+  Inv s'.
+Proof.
+  intros [Hcur Hnd Hph Hold Hacc Hconn Hfd Hndf] E Ec Ecf Er Ef Ea Eco.
+  destruct (stop_old_fields s a) as (_ & _ & _ & _ & _ & _ & Ff & Fa & Fc).
+  rewrite Ff in Ef. rewrite Fa in Ea. rewrite Fc in Eco. clear Ff Fa Fc.
+  unfold phase_inv, old_live, is_new in *. rewrite E in *.
+  destruct Hph as (Hn & Hndt & Hincl & Hfate & Hnew & Hcurfd).
+  destruct Hn as (Hn1 & Hn2).
+  inversion Hndt as [|x y Hnotin Hndl]; subst x y.
+  set (f := rem (cur s) (fdh s a)) in *.
+  assert (Hfd' : forall b x, In x (upd (fdh s) a f b) <-> (In x (fdh s b) /\ (b = a -> x <> cur s))).
+  { intros b x. destruct (Nat.eq_dec b a) as [->|Hne].
+    - rewrite upd_same. unfold f. rewrite rem_In. split; intros (H1 & H2); split; auto.
+    - rewrite upd_other by exact Hne. split; [intros H1; split; [exact H1|intros; contradiction] | intros (H1 & _); exact H1]. }
+  assert (Hac' : forall b x, In x (upd (acc s) a (rem (cur s) (acc s a)) b) <-> (In x (acc s b) /\ (b = a -> x <> cur s))).
+  { intros b x. destruct (Nat.eq_dec b a) as [->|Hne].
+    - rewrite upd_same. rewrite rem_In. split; intros (H1 & H2); split; auto.
+    - rewrite upd_other by exact Hne. split; [intros H1; split; [exact H1|intros; contradiction] | intros (H1 & _); exact H1]. }
+  assert (Hconn' : forall k c, nth_error (conns s') k = Some c ->
+            cborn c <= cur s /\
+            (forall i, accepted_by (cst c) = Some i ->
+                       cborn c <= i /\ i < length (cfgs s) /\ In (caddr c) (addrs_of s i)) /\
+            (cst c = CQueued -> upd (fdh s) a f (caddr c) <> [])).
+  { intros k c Hk. rewrite Eco in Hk. destruct (isnil f) eqn:Enil.
+    - unfold reset_queued in Hk. rewrite nth_error_map in Hk.
+      destruct (nth_error (conns s) k) as [c0|] eqn:Ek; [|discriminate]. simpl in Hk. injection Hk as <-.
+      destruct (Hconn k c0 Ek) as (H1 & H2 & H3).
+      destruct (cst c0) eqn:Ec0; try (rewrite Ec0; split; [exact H1|]; split; [exact H2|]; intros; discriminate).
+      destruct (Nat.eqb (caddr c0) a) eqn:Ea0.
+      + simpl. split; [exact H1|]. split; [intros i Hi; discriminate | intros; discriminate].
+      + rewrite Ec0. split; [exact H1|]. split; [exact H2|]. intros _.
+        apply Nat.eqb_neq in Ea0. rewrite upd_other by exact Ea0. apply H3. reflexivity.
+    - destruct (Hconn k c Hk) as (H1 & H2 & H3). split; [exact H1|]. split; [exact H2|].
+      intros Hq. destruct (Nat.eq_dec (caddr c) a) as [->|Hne].
+      + rewrite upd_same. apply isnil_false. exact Enil.
+      + rewrite upd_other by exact Hne. apply H3. exact Hq. }
+  constructor; unfold phase_inv, old_live, is_new, holder_ok, pending, addrs_of, fate_of, new_ok in *;
+    rewrite ?Ef, ?Ea, ?Ecf, ?Ec, ?Er.
+  - exact Hcur.
+  - exact Hnd.
+  - split; [split; assumption|]. split; [exact Hndl|]. split; [intros x Hx; apply Hincl; right; exact Hx|].
+    split; [exact Hfate|]. split.
+    + intros b Hb. destruct (Hnew b Hb) as (H1 & H2).
+      split; [apply Hfd' | apply Hac']; (split; [assumption | intros _; lia]).
+    + intros b Hb. apply Hfd' in Hb as (Hb & Hba). destruct (Hcurfd b Hb) as [<-|Hin]; [|exact Hin].
+      exfalso. apply Hba; reflexivity.
+  - intros b Hb Hbl. assert (Hne : b <> a) by (intros ->; contradiction).
+    destruct (Hold b Hb (or_intror Hbl)) as (H1 & H2).
+    split; [apply Hfd' | apply Hac']; (split; [assumption | intros; contradiction]).
+  - intros b i Hi. apply Hac' in Hi as (Hi & Hia).
+    destruct (Hacc b i Hi) as (H1 & H2 & H3).
+    split; [apply Hfd'; split; [exact H1 | exact Hia]|]. split; [exact H2|].
+    destruct H3 as [[-> Hbl] | -> ]; [|right; reflexivity].
+    left. split; [reflexivity|]. destruct Hbl as [<-|Hbl]; [|exact Hbl].
+    exfalso. apply Hia; reflexivity.
+  - exact Hconn'.
+  - intros b i Hi. apply Hfd' in Hi as (Hi & _). specialize (Hfd b i Hi). rewrite E in Hfd. exact Hfd.
+  - intros b. destruct (Nat.eq_dec b a) as [->|Hne].
+    + rewrite upd_same. unfold f, rem. apply NoDup_filter. apply Hndf.
+    + rewrite upd_other by exact Hne. apply Hndf.
+Qed.
+
 Lemma inv_step s l s' : Inv s -> step s l = Some s' -> Inv s'.
 Proof.
-  intros [Hcur Hnd Hph Hold Hacc Hconn] H.
+  intros Hinv H. pose proof Hinv as [Hcur Hnd Hph Hold Hacc Hconn Hfd Hndf].
   destruct l; unfold step in H.
   - (* LCall *)
     dmatch H. injection H as <-.
     assert (Hadd : forall i, i < length (cfgs s) ->
               nth i (cfgs s ++ [(addrs, fate)]) ([], 0) = nth i (cfgs s) ([], 0)).
     { intros i Hi. apply app_nth1. exact Hi. }
-    unfold phase_inv, old_live, is_new, addrs_of, fate_of in *. rewrite E in *.
-    constructor; simpl; unfold phase_inv, old_live, is_new, addrs_of, fate_of, new_ok; simpl.
+    unfold phase_inv, old_live, is_new, holder_ok, pending, addrs_of, fate_of in *. rewrite E in *.
+    constructor; simpl; unfold phase_inv, old_live, is_new, holder_ok, pending, addrs_of, fate_of, new_ok; simpl.
     + rewrite app_length. simpl. lia.
     + intros i. destruct (Nat.lt_trichotomy i (length (cfgs s))) as [Hi|[Hi|Hi]].
       * rewrite Hadd by exact Hi. apply Hnd.
       * subst i. rewrite nth_app_eq. simpl. apply nodupb_NoDup. exact E0.
       * rewrite nth_app_gt by exact Hi. constructor.
-    + rewrite app_length. simpl. split; lia.
+    + rewrite app_length. simpl. split; [split; lia|].
+      intros a Hin. destruct (Hfd a _ Hin) as [(Hc & _)|(Hc & _)]; [lia|discriminate].
     + rewrite Hadd by exact Hcur. intros a Ha _. apply Hold; auto.
     + intros a i Hi. destruct (Hacc a i Hi) as (H1 & H2 & [[-> _]|[]]).
       rewrite Hadd by exact Hcur. auto.
     + intros k c Hk. destruct (Hconn k c Hk) as (H1 & H2 & H3). split; [exact H1|]. split; [|exact H3].
       intros i Hi. destruct (H2 i Hi) as (Ha & Hb & Hc). rewrite app_length. simpl.
       rewrite Hadd by exact Hb. repeat split; try lia; assumption.
+    + intros a i Hi. destruct (Hfd a i Hi) as [(-> & Ha)|(Hc & _)]; [|discriminate].
+      left. split; [reflexivity|]. rewrite Hadd by exact Hcur. exact Ha.
+    + exact Hndf.
   - (* LLoadFail *)
     dmatch H. injection H as <-.
-    unfold phase_inv, old_live, is_new in *. rewrite E in *.
-    constructor; simpl; unfold phase_inv, old_live, is_new; simpl; auto.
-    all: try (intros a i Hi; destruct (Hacc a i Hi) as (H1 & H2 & [[-> _]|[]]); auto).
+    unfold phase_inv, old_live, is_new, holder_ok, pending in *. rewrite E in *.
+    constructor; simpl; unfold phase_inv, old_live, is_new, holder_ok, pending; simpl; auto.
+    all: try (intros a i Hi; destruct (Hacc a i Hi) as (H1 & H2 & [[-> _]|[]]); auto; fail).
+    intros a i Hi. destruct (Hfd a i Hi) as [Hc|(Hc & _)]; [left; exact Hc|].
+    injection Hc as <-. exfalso. destruct Hph as (_ & Hno). exact (Hno a Hi).
   - (* LLoadOk *)
     dmatch H. injection H as <-.
-    unfold phase_inv, old_live, is_new in *. rewrite E in *.
-    constructor; simpl; unfold phase_inv, old_live, is_new; simpl; auto.
-    + split; [exact Hph|]. split; [apply incl_refl|]. split.
-      * apply Nat.eqb_neq. exact E0.
-      * intros a Ha Hn. contradiction.
+    unfold phase_inv, old_live, is_new, holder_ok, pending in *. rewrite E in *.
+    constructor; simpl; unfold phase_inv, old_live, is_new, holder_ok, pending; simpl; auto.
+    destruct Hph as (Hn & Hno). split; [exact Hn|]. split; [apply Nat.eqb_neq; exact E0 | exact Hno].
   - (* LDup *)
     dmatch H. injection H as <-. rename n0 into a.
-    unfold phase_inv, old_live, is_new in *. rewrite E in *.
-    destruct Hph as (Hn & Hincl & Hfate & Hfd).
+    unfold phase_inv, old_live, is_new, holder_ok, pending in *. rewrite E in *.
+    destruct Hph as (Hn & Hincl & Hfate & Hfdn & Hndt & Hnot).
+    inversion Hndt as [|x0 y0 Hnotin Hndl]; subst x0 y0.
     assert (Hsup : forall x b, In x (fdh s b) -> In x (upd (fdh s) a (n :: fdh s a) b)).
     { intros x b Hx. destruct (Nat.eq_dec b a) as [->|Hne].
       - rewrite upd_same. right. exact Hx.
       - rewrite upd_other by exact Hne. exact Hx. }
-    constructor; simpl; unfold phase_inv, old_live, is_new; simpl; auto.
+    constructor; simpl; unfold phase_inv, old_live, is_new, holder_ok, pending; simpl; auto.
     + split; [exact Hn|]. split; [intros x Hx; apply Hincl; right; exact Hx|]. split; [exact Hfate|].
-      intros b Hb Hnt. destruct (Nat.eq_dec b a) as [->|Hne].
-      * rewrite upd_same. left. reflexivity.
-      * apply Hsup. apply Hfd; [exact Hb|]. intros [Hx|Hx]; [congruence|contradiction].
+      split; [|split; [exact Hndl|]].
+      * intros b Hb Hnt. destruct (Nat.eq_dec b a) as [->|Hne].
+        -- rewrite upd_same. left. reflexivity.
+        -- apply Hsup. apply Hfdn; [exact Hb|]. intros [Hx|Hx]; [congruence|contradiction].
+      * intros b Hb. assert (Hne : b <> a) by (intros ->; contradiction).
+        rewrite upd_other by exact Hne. apply Hnot. right. exact Hb.
     + intros b Hb _. destruct (Hold b Hb I) as (H1 & H2). split; [apply Hsup; exact H1|exact H2].
     + intros b i Hi. destruct (Hacc b i Hi) as (H1 & H2 & H3). split; [apply Hsup; exact H1|]. auto.
     + intros k c Hk. destruct (Hconn k c Hk) as (H1 & H2 & H3). split; [exact H1|]. split; [exact H2|].
       intros Hq Hnil. specialize (H3 Hq). destruct (fdh s (caddr c)) as [|y r] eqn:Ef; [congruence|].
       assert (Hy : In y (upd (fdh s) a (n :: fdh s a) (caddr c))) by (apply Hsup; rewrite Ef; left; reflexivity).
       rewrite Hnil in Hy. contradiction.
+    + intros b i Hi. destruct (Nat.eq_dec b a) as [->|Hne].
+      * rewrite upd_same in Hi. destruct Hi as [<-|Hi]; [|apply Hfd; exact Hi].
+        right. split; [reflexivity|]. apply Hincl. left. reflexivity.
+      * rewrite upd_other in Hi by exact Hne. apply Hfd; exact Hi.
+    + intros b. destruct (Nat.eq_dec b a) as [->|Hne].
+      * rewrite upd_same. constructor; [apply Hnot; left; reflexivity | apply Hndf].
+      * rewrite upd_other by exact Hne. apply Hndf.
   - (* LBind *)
     dmatch H. injection H as <-. rename n0 into a.
     apply andb_true_iff in E1 as (E1 & Eext). apply andb_true_iff in E1 as (Enm & Enil).
     apply isnil_true in Enil.
-    unfold phase_inv, old_live, is_new in *. rewrite E in *.
-    destruct Hph as (Hn & Hincl & Hfate & Hfd).
+    unfold phase_inv, old_live, is_new, holder_ok, pending in *. rewrite E in *.
+    destruct Hph as (Hn & Hincl & Hfate & Hfdn & Hndt & Hnot).
+    inversion Hndt as [|x0 y0 Hnotin Hndl]; subst x0 y0.
     assert (Hsup : forall x b, In x (fdh s b) -> In x (upd (fdh s) a [n] b)).
     { intros x b Hx. destruct (Nat.eq_dec b a) as [->|Hne].
       - rewrite Enil in Hx. contradiction.
       - rewrite upd_other by exact Hne. exact Hx. }
-    constructor; simpl; unfold phase_inv, old_live, is_new; simpl; auto.
+    constructor; simpl; unfold phase_inv, old_live, is_new, holder_ok, pending; simpl; auto.
     + split; [exact Hn|]. split; [intros x Hx; apply Hincl; right; exact Hx|]. split; [exact Hfate|].
-      intros b Hb Hnt. destruct (Nat.eq_dec b a) as [->|Hne].
-      * rewrite upd_same. left. reflexivity.
-      * apply Hsup. apply Hfd; [exact Hb|]. intros [Hx|Hx]; [congruence|contradiction].
+      split; [|split; [exact Hndl|]].
+      * intros b Hb Hnt. destruct (Nat.eq_dec b a) as [->|Hne].
+        -- rewrite upd_same. left. reflexivity.
+        -- apply Hsup. apply Hfdn; [exact Hb|]. intros [Hx|Hx]; [congruence|contradiction].
+      * intros b Hb. assert (Hne : b <> a) by (intros ->; contradiction).
+        rewrite upd_other by exact Hne. apply Hnot. right. exact Hb.
     + intros b Hb _. destruct (Hold b Hb I) as (H1 & H2). split; [apply Hsup; exact H1|exact H2].
     + intros b i Hi. destruct (Hacc b i Hi) as (H1 & H2 & H3). split; [apply Hsup; exact H1|]. auto.
     + intros k c Hk. destruct (Hconn k c Hk) as (H1 & H2 & H3). split; [exact H1|]. split; [exact H2|].
       intros Hq Hnil. specialize (H3 Hq). destruct (fdh s (caddr c)) as [|y r] eqn:Ef; [congruence|].
       assert (Hy : In y (upd (fdh s) a [n] (caddr c))) by (apply Hsup; rewrite Ef; left; reflexivity).
       rewrite Hnil in Hy. contradiction.
-  - (* LListenFail *)
+    + intros b i Hi. destruct (Nat.eq_dec b a) as [->|Hne].
+      * rewrite upd_same in Hi. destruct Hi as [<-|[]].
+        right. split; [reflexivity|]. apply Hincl. left. reflexivity.
+      * rewrite upd_other in Hi by exact Hne. apply Hfd; exact Hi.
+    + intros b. destruct (Nat.eq_dec b a) as [->|Hne].
+      * rewrite upd_same. repeat constructor. intros [].
+      * rewrite upd_other by exact Hne. apply Hndf.
+  - (* LListenFail: startServers closes what it opened for the new instance *)
     dmatch H. injection H as <-.
-    unfold phase_inv, old_live, is_new in *. rewrite E in *.
-    constructor; simpl; unfold phase_inv, old_live, is_new; simpl; auto.
-    all: try (intros a i Hi; destruct (Hacc a i Hi) as (H1 & H2 & [[-> _]|[]]); auto).
+    unfold phase_inv, old_live, is_new, holder_ok, pending in *. rewrite E in *.
+    destruct Hph as ((Hn1 & Hn2) & _).
+    constructor; simpl; unfold phase_inv, old_live, is_new, holder_ok, pending; simpl; auto.
+    + intros a Ha _. destruct (Hold a Ha I) as (H1 & H2). split; [|exact H2].
+      apply rem_In. split; [exact H1 | lia].
+    + intros a i Hi; destruct (Hacc a i Hi) as (H1 & H2 & [[-> _]|[]]).
+      split; [apply rem_In; split; [exact H1 | lia]|]. auto.
+    + intros k c Hk. rewrite nth_error_map in Hk.
+      destruct (nth_error (conns s) k) as [c0|] eqn:Ek; [|discriminate]. simpl in Hk. injection Hk as <-.
+      destruct (Hconn k c0 Ek) as (H1 & H2 & H3).
+      destruct (cst c0) eqn:Ec0; try (rewrite Ec0; split; [exact H1|]; split; [exact H2|]; intros; discriminate).
+      destruct (isnil (rem n (fdh s (caddr c0)))) eqn:Enil.
+      * simpl. split; [exact H1|]. split; intros; discriminate.
+      * rewrite Ec0. split; [exact H1|]. split; [exact H2|]. intros _. apply isnil_false. exact Enil.
+    + intros a i Hi. apply rem_In in Hi as (Hi & Hne).
+      destruct (Hfd a i Hi) as [Hc|(Hc & _)]; [left; exact Hc | congruence].
+    + intros a. unfold rem. apply NoDup_filter. apply Hndf.
   - (* LAdv *)
     dmatch H; injection H as <-.
     + (* RListen n [] -> RSpawn *)
-      unfold phase_inv, old_live, is_new in *. rewrite E in *.
-      destruct Hph as (Hn & Hincl & Hfate & Hfd).
-      constructor; simpl; unfold phase_inv, old_live, is_new; simpl; auto.
+      unfold phase_inv, old_live, is_new, holder_ok, pending in *. rewrite E in *.
+      destruct Hph as (Hn & Hincl & Hfate & Hfdn & _ & _).
+      constructor; simpl; unfold phase_inv, old_live, is_new, holder_ok, pending; simpl; auto.
       * split; [exact Hn|]. split; [apply incl_refl|]. split; [apply Nat.eqb_eq; exact E1|]. split.
-        -- intros a Ha. apply Hfd; [exact Ha|]. intros [].
+        -- intros a Ha. apply Hfdn; [exact Ha|]. intros [].
         -- intros a Ha Hna. contradiction.
       * intros a i Hi. destruct (Hacc a i Hi) as (H1 & H2 & [[-> _]|[]]). auto.
     + (* RSpawn n [] -> RStop *)
-      unfold phase_inv, old_live, is_new in *. rewrite E in *.
-      destruct Hph as (Hn & Hincl & Hfate & Hfd & Hac).
-      constructor; simpl; unfold phase_inv, old_live, is_new; simpl; auto.
-      * split; [exact Hn|]. split; [apply Hnd|]. split; [apply incl_refl|]. split; [exact Hfate|].
-        intros a Ha. split; [apply Hfd; exact Ha | apply Hac; [exact Ha | intros []]].
+      unfold phase_inv, old_live, is_new, holder_ok, pending in *. rewrite E in *.
+      destruct Hph as (Hn & Hincl & Hfate & Hfdn & Hac).
+      constructor; simpl; unfold phase_inv, old_live, is_new, holder_ok, pending; simpl; auto.
+      * split; [exact Hn|]. split; [apply Hnd|]. split; [apply incl_refl|]. split; [exact Hfate|]. split.
+        -- intros a Ha. split; [apply Hfdn; exact Ha | apply Hac; [exact Ha | intros []]].
+        -- intros a Ha. destruct (Hfd a _ Ha) as [(_ & Hin)|(Hc & _)]; [exact Hin|].
+           injection Hc as Hc. destruct Hn as (_ & Hlt). lia.
       * intros a i Hi. destruct (Hacc a i Hi) as (H1 & H2 & [[-> _] | -> ]); auto.
   - (* LSpawn *)
     dmatch H. injection H as <-. rename n0 into a.
-    unfold phase_inv, old_live, is_new in *. rewrite E in *.
-    destruct Hph as (Hn & Hincl & Hfate & Hfd & Hac).
-    constructor; simpl; unfold phase_inv, old_live, is_new; simpl; auto.
+    unfold phase_inv, old_live, is_new, holder_ok, pending in *. rewrite E in *.
+    destruct Hph as (Hn & Hincl & Hfate & Hfdn & Hac).
+    constructor; simpl; unfold phase_inv, old_live, is_new, holder_ok, pending; simpl; auto.
     + split; [exact Hn|]. split; [intros x Hx; apply Hincl; right; exact Hx|]. split; [exact Hfate|].
-      split; [exact Hfd|].
+      split; [exact Hfdn|].
       intros b Hb Hnt. destruct (Nat.eq_dec b a) as [->|Hne].
       * rewrite upd_same. left. reflexivity.
       * rewrite upd_other by exact Hne. apply Hac; [exact Hb|]. intros [Hx|Hx]; [congruence|contradiction].
@@ -267,93 +439,35 @@ Proof.
       destruct (Nat.eq_dec b a) as [->|Hne]; [rewrite upd_same; right; exact H2 | rewrite upd_other by exact Hne; exact H2].
     + intros b i Hi. destruct (Nat.eq_dec b a) as [->|Hne].
       * rewrite upd_same in Hi. destruct Hi as [<-|Hi].
-        -- split; [apply Hfd; apply Hincl; left; reflexivity|]. split; [apply Hincl; left; reflexivity|]. right. reflexivity.
+        -- split; [apply Hfdn; apply Hincl; left; reflexivity|]. split; [apply Hincl; left; reflexivity|]. right. reflexivity.
         -- destruct (Hacc a i Hi) as (H1 & H2 & H3). auto.
       * rewrite upd_other in Hi by exact Hne. destruct (Hacc b i Hi) as (H1 & H2 & H3). auto.
   - (* LStop *)
     dmatch H. injection H as <-. rename n0 into a.
-    unfold phase_inv, old_live, is_new in *. rewrite E in *.
-    destruct Hph as (Hn & Hndt & Hincl & Hfate & Hnew).
-    destruct Hn as (Hn1 & Hn2).
-    inversion Hndt as [|x y Hnotin Hndl]; subst x y.
-    set (f := rem (cur s) (fdh s a)) in *.
-    (* facts that do not depend on the queue reset *)
-    assert (Hfd' : forall b x, In x (upd (fdh s) a f b) <-> (In x (fdh s b) /\ (b = a -> x <> cur s))).
-    { intros b x. destruct (Nat.eq_dec b a) as [->|Hne].
-      - rewrite upd_same. unfold f. rewrite rem_In. split; intros (H1 & H2); split; auto.
-      - rewrite upd_other by exact Hne. split; [intros H1; split; [exact H1|intros; contradiction] | intros (H1 & _); exact H1]. }
-    assert (Hac' : forall b x, In x (upd (acc s) a (rem (cur s) (acc s a)) b) <-> (In x (acc s b) /\ (b = a -> x <> cur s))).
-    { intros b x. destruct (Nat.eq_dec b a) as [->|Hne].
-      - rewrite upd_same. rewrite rem_In. split; intros (H1 & H2); split; auto.
-      - rewrite upd_other by exact Hne. split; [intros H1; split; [exact H1|intros; contradiction] | intros (H1 & _); exact H1]. }
-    assert (Hconn' : forall k c, nth_error
-              (conns (if isnil f
-                      then with_conns (with_acc (with_fdh s (upd (fdh s) a f)) (upd (acc s) a (rem (cur s) (acc s a))))
-                             (reset_queued a (conns s))
-                      else with_acc (with_fdh s (upd (fdh s) a f)) (upd (acc s) a (rem (cur s) (acc s a))))) k = Some c ->
-              cborn c <= cur s /\
-              (forall i, accepted_by (cst c) = Some i ->
-                         cborn c <= i /\ i < length (cfgs s) /\ In (caddr c) (addrs_of s i)) /\
-              (cst c = CQueued -> upd (fdh s) a f (caddr c) <> [])).
-    { intros k c Hk. destruct (isnil f) eqn:Enil; simpl in Hk.
-      - unfold reset_queued in Hk. rewrite nth_error_map in Hk.
-        destruct (nth_error (conns s) k) as [c0|] eqn:Ek; [|discriminate]. simpl in Hk. injection Hk as <-.
-        destruct (Hconn k c0 Ek) as (H1 & H2 & H3).
-        destruct (cst c0) eqn:Ec; try (rewrite Ec; split; [exact H1|]; split; [exact H2|]; intros; discriminate).
-        destruct (Nat.eqb (caddr c0) a) eqn:Ea.
-        + simpl. split; [exact H1|]. split; [intros i Hi; discriminate | intros; discriminate].
-        + rewrite Ec. split; [exact H1|]. split; [exact H2|]. intros _.
-          apply Nat.eqb_neq in Ea. rewrite upd_other by exact Ea. apply H3. reflexivity.
-      - destruct (Hconn k c Hk) as (H1 & H2 & H3). split; [exact H1|]. split; [exact H2|].
-        intros Hq. destruct (Nat.eq_dec (caddr c) a) as [->|Hne].
-        + rewrite upd_same. apply isnil_false. exact Enil.
-        + rewrite upd_other by exact Hne. apply H3. exact Hq. }
-    assert (Hcommon : forall st',
-              fdh st' = upd (fdh s) a f -> acc st' = upd (acc s) a (rem (cur s) (acc s a)) ->
-              cfgs st' = cfgs s -> cur st' = cur s -> rst st' = RStop n l ->
-              (forall k c, nth_error (conns st') k = Some c ->
-                 cborn c <= cur s /\
-                 (forall i, accepted_by (cst c) = Some i ->
-                            cborn c <= i /\ i < length (cfgs s) /\ In (caddr c) (addrs_of s i)) /\
-                 (cst c = CQueued -> upd (fdh s) a f (caddr c) <> [])) ->
-              Inv st').
-    { intros st' Ef Ea Ec Eu Er Hc.
-      constructor; unfold phase_inv, old_live, is_new, addrs_of, fate_of, new_ok in *;
-        rewrite ?Ef, ?Ea, ?Ec, ?Eu, ?Er.
-      - exact Hcur.
-      - exact Hnd.
-      - split; [split; assumption|]. split; [exact Hndl|]. split; [intros x Hx; apply Hincl; right; exact Hx|].
-        split; [exact Hfate|]. intros b Hb. destruct (Hnew b Hb) as (H1 & H2).
-        split; [apply Hfd' | apply Hac']; (split; [assumption | intros _; lia]).
-      - intros b Hb Hbl. assert (Hne : b <> a) by (intros ->; contradiction).
-        destruct (Hold b Hb (or_intror Hbl)) as (H1 & H2).
-        split; [apply Hfd' | apply Hac']; (split; [assumption | intros; contradiction]).
-      - intros b i Hi. apply Hac' in Hi as (Hi & Hia).
-        destruct (Hacc b i Hi) as (H1 & H2 & H3).
-        split; [apply Hfd'; split; [exact H1 | exact Hia]|]. split; [exact H2|].
-        destruct H3 as [[-> Hbl] | -> ]; [|right; reflexivity].
-        left. split; [reflexivity|]. destruct Hbl as [<-|Hbl]; [|exact Hbl].
-        exfalso. apply Hia; reflexivity.
-      - exact Hc. }
-    destruct (isnil f) eqn:Enil; apply Hcommon; try reflexivity; exact Hconn'.
+    eapply (inv_stop_old s n a l);
+      [exact Hinv | exact E | simpl; apply stop_old_fields | simpl; apply stop_old_fields
+       | reflexivity | reflexivity | reflexivity | reflexivity].
   - (* LReturn *)
     dmatch H. injection H as <-.
-    unfold phase_inv, old_live, is_new in *. rewrite E in *.
-    destruct Hph as ((Hn1 & Hn2) & Hndt & Hincl & Hfate & Hnew).
-    constructor; simpl; unfold phase_inv, old_live, is_new; simpl; auto.
+    unfold phase_inv, old_live, is_new, holder_ok, pending in *. rewrite E in *.
+    destruct Hph as ((Hn1 & Hn2) & Hndt & Hincl & Hfate & Hnew & Hcurfd).
+    constructor; simpl; unfold phase_inv, old_live, is_new, holder_ok, pending; simpl; auto.
     + lia.
     + intros a i Hi. destruct (Hacc a i Hi) as (H1 & H2 & [[-> []] | -> ]). auto.
     + intros k c Hk. destruct (Hconn k c Hk) as (H1 & H2 & H3). split; [lia|]. auto.
+    + intros a i Hi. destruct (Hfd a i Hi) as [(-> & _)|(Hc & Ha)].
+      * exfalso. exact (Hcurfd a Hi).
+      * injection Hc as <-. left. auto.
   - (* LNew *)
     injection H as <-.
     unfold phase_inv, old_live, is_new in *.
-    constructor; simpl; unfold phase_inv, old_live, is_new; simpl; auto.
+    constructor; simpl; unfold phase_inv, old_live, is_new; simpl; auto; try exact Hfd.
     intros k c Hk. apply nth_error_app_last in Hk as [Hk|(-> & ->)]; [apply Hconn in Hk; exact Hk|].
     simpl. split; [lia|]. split; intros; discriminate.
   - (* LConnect *)
     dmatch H. injection H as <-.
     unfold phase_inv, old_live, is_new in *.
-    constructor; simpl; unfold phase_inv, old_live, is_new; simpl; auto.
+    constructor; simpl; unfold phase_inv, old_live, is_new; simpl; auto; try exact Hfd.
     intros k' c' Hk'.
     eapply conn_upd_inv in Hk' as [(-> & ->)|(Hne & Hk')]; [| |exact E|reflexivity]; [|apply Hconn in Hk'; exact Hk'].
     destruct (Hconn k c E) as (H1 & H2 & H3). simpl. split; [exact H1|].
@@ -370,7 +484,7 @@ Proof.
       - destruct Hph as ((Ha & Hb) & _). lia.
       - destruct Hph as ((Ha & Hb) & _). lia. }
     unfold phase_inv, old_live, is_new in *.
-    constructor; simpl; unfold phase_inv, old_live, is_new; simpl; auto.
+    constructor; simpl; unfold phase_inv, old_live, is_new; simpl; auto; try exact Hfd.
     intros k' c' Hk'.
     eapply conn_upd_inv in Hk' as [(-> & ->)|(Hne & Hk')]; [| |exact E|reflexivity]; [|apply Hconn in Hk'; exact Hk'].
     simpl. split; [exact H1|]. split; [|intros; discriminate].
@@ -379,7 +493,7 @@ Proof.
     dmatch H. injection H as <-.
     destruct (Hconn k c E) as (H1 & H2 & H3).
     unfold phase_inv, old_live, is_new in *.
-    constructor; simpl; unfold phase_inv, old_live, is_new; simpl; auto.
+    constructor; simpl; unfold phase_inv, old_live, is_new; simpl; auto; try exact Hfd.
     intros k' c' Hk'.
     eapply conn_upd_inv in Hk' as [(-> & ->)|(Hne & Hk')]; [| |exact E|reflexivity]; [|apply Hconn in Hk'; exact Hk'].
     simpl. split; [exact H1|]. split; [|intros; discriminate].
@@ -388,7 +502,7 @@ Proof.
     dmatch H; injection H as <-;
     destruct (Hconn k c E) as (H1 & H2 & H3);
     unfold phase_inv, old_live, is_new in *;
-    (constructor; simpl; unfold phase_inv, old_live, is_new; simpl; auto);
+    (constructor; simpl; unfold phase_inv, old_live, is_new; simpl; auto; try exact Hfd);
     intros k' c' Hk';
     (eapply conn_upd_inv in Hk' as [(-> & ->)|(Hne & Hk')]; [| |exact E|reflexivity]; [|apply Hconn in Hk'; exact Hk']);
     simpl; (split; [exact H1|]); (split; [|intros; discriminate]);
@@ -396,7 +510,29 @@ Proof.
   - (* LObs *)
     injection H as <-.
     unfold phase_inv, old_live, is_new in *.
-    constructor; simpl; unfold phase_inv, old_live, is_new; simpl; auto.
+    constructor; simpl; unfold phase_inv, old_live, is_new; simpl; auto; try exact Hfd.
+  - (* LCbOk *)
+    dmatch H. injection H as <-.
+    unfold phase_inv, old_live, is_new, holder_ok, pending in *. rewrite E in *.
+    constructor; simpl; unfold phase_inv, old_live, is_new, holder_ok, pending; simpl; auto.
+    destruct Hph as (Hn & Hf & Hno). split; [exact Hn|]. split; [apply incl_refl|]. split; [exact Hf|].
+    split; [intros a Ha Hna; contradiction|]. split; [apply Hnd|]. intros a _. apply Hno.
+  - (* LCbFail *)
+    dmatch H. injection H as <-.
+    unfold phase_inv, old_live, is_new, holder_ok, pending in *. rewrite E in *.
+    constructor; simpl; unfold phase_inv, old_live, is_new, holder_ok, pending; simpl; auto.
+    all: try (intros a i Hi; destruct (Hacc a i Hi) as (H1 & H2 & [[-> _]|[]]); auto; fail).
+    intros a i Hi. destruct (Hfd a i Hi) as [Hc|(Hc & _)]; [left; exact Hc|].
+    injection Hc as <-. exfalso. destruct Hph as (_ & _ & Hno). exact (Hno a Hi).
+  - (* LStopTimeout *)
+    dmatch H. injection H as <-. rename n0 into a.
+    eapply (inv_stop_old s n a l);
+      [exact Hinv | exact E | simpl; apply stop_old_fields | simpl; apply stop_old_fields
+       | reflexivity | reflexivity | reflexivity | reflexivity].
+  - (* LFds *)
+    injection H as <-.
+    unfold phase_inv, old_live, is_new in *.
+    constructor; simpl; unfold phase_inv, old_live, is_new; simpl; auto; try exact Hfd.
 Qed.
 
 Lemma inv_run s ls s' : Inv s -> run s ls = Some s' -> Inv s'.
@@ -440,15 +576,18 @@ Qed.
 Lemma sid_step s l s' a :
   step s l = Some s' -> sid s' a <> sid s a -> l = LBind /\ fdh s a = [] /\ ~ In a (addrs_of s (cur s)).
 Proof.
-  intros H Hne. destruct l; unfold step in H; dmatch H; try (injection H as <-; simpl in Hne; congruence).
-  - (* LBind *)
-    injection H as <-. simpl in Hne.
-    apply andb_true_iff in E1 as (E1 & _). apply andb_true_iff in E1 as (Enm & Enil).
-    destruct (Nat.eq_dec a n0) as [->|Hd]; [|rewrite upd_other in Hne by exact Hd; congruence].
-    split; [reflexivity|]. split; [apply isnil_true; exact Enil|].
-    apply Bool.negb_true_iff in Enm. apply mem_false. exact Enm.
-  - (* LStop with reset *)
-    injection H as <-. destruct (isnil (rem (cur s) (fdh s n0))); simpl in Hne; congruence.
+  intros H Hne. destruct l; unfold step in H; dmatch H;
+    try (injection H as <-; simpl in Hne;
+         repeat match type of Hne with
+                | context [sid (stop_old ?s0 ?a0)] => rewrite (proj1 (proj2 (proj2 (stop_old_fields s0 a0)))) in Hne
+                end;
+         congruence).
+  (* LBind *)
+  injection H as <-. simpl in Hne.
+  apply andb_true_iff in E1 as (E1 & _). apply andb_true_iff in E1 as (Enm & Enil).
+  destruct (Nat.eq_dec a n0) as [->|Hd]; [|rewrite upd_other in Hne by exact Hd; congruence].
+  split; [reflexivity|]. split; [apply isnil_true; exact Enil|].
+  apply Bool.negb_true_iff in Enm. apply mem_false. exact Enm.
 Qed.
 
 Lemma socket_never_rebound s l s' a :
@@ -540,16 +679,22 @@ Proof.
     - apply Nat.eqb_eq in Ek. subst k0. rewrite Hk in *. injection Hk0 as <-.
       destruct (Hx eq_refl) as (X1 & X2 & X3). eexists. split; [reflexivity|]. simpl. auto.
     - apply Hkeep. reflexivity. }
+  assert (Hstop : forall a0 s1, conns s1 = conns (stop_old s a0) -> fdh s1 = fdh (stop_old s a0) ->
+            reachable s1 -> In (caddr c) (addrs_of s1 (owner s1)) ->
+            exists c', nth_error (conns s1) k = Some c' /\ caddr c' = caddr c /\
+              csite c' = csite c /\ cst c' <> CReset /\ cst c' <> CRefused /\ (cst c' = CFailed -> False)).
+  { intros a0 s1 Ec Ef Hr1 Ha1. rewrite Ec. rewrite (stop_old_queued s a0 k c Hk Hq).
+    - exists c. rewrite Hq. repeat split; try discriminate.
+    - destruct (stop_old_fields s a0) as (_ & _ & _ & _ & _ & _ & Ff & _). rewrite <- Ff, <- Ef.
+      apply (socket_never_closed _ _ Hr1 Ha1). }
   destruct l; unfold step in H; dmatch H; try (injection H as <-; simpl; apply Hkeep; reflexivity).
+  - (* LListenFail: only sockets the failed instance had bound itself disappear *)
+    injection H as <-. simpl. rewrite nth_error_map, Hk. simpl. rewrite Hq.
+    destruct (isnil (rem n (fdh s (caddr c)))) eqn:Enil.
+    + exfalso. apply (socket_never_closed _ _ Hr' Ha). simpl. apply isnil_true. exact Enil.
+    + exists c. rewrite Hq. repeat split; try discriminate.
   - (* LStop *)
-    injection H as <-. rename n0 into a0.
-    destruct (isnil (rem (cur s) (fdh s a0))) eqn:Enil; simpl; [|apply Hkeep; reflexivity].
-    unfold reset_queued. rewrite nth_error_map, Hk. simpl. rewrite Hq.
-    destruct (Nat.eqb (caddr c) a0) eqn:Ea.
-    + exfalso. apply Nat.eqb_eq in Ea. subst a0.
-      apply (socket_never_closed _ _ Hr' Ha). simpl.
-      rewrite upd_same. apply isnil_true. exact Enil.
-    + eexists. split; [reflexivity|]. rewrite Hq. repeat split; discriminate.
+    injection H as <-. apply (Hstop n0); try reflexivity; assumption.
   - (* LNew *)
     injection H as <-. simpl. rewrite nth_error_app1 by (apply nth_error_Some; congruence).
     apply Hkeep. reflexivity.
@@ -569,6 +714,8 @@ Proof.
   - injection H as <-. simpl. apply Hset; [exact E|]. intros ->. rewrite Hk in E. injection E as <-. congruence.
   - injection H as <-. simpl. apply Hset; [exact E|]. intros ->. rewrite Hk in E. injection E as <-. congruence.
   - injection H as <-. simpl. apply Hset; [exact E|]. intros ->. rewrite Hk in E. injection E as <-. congruence.
+  - (* LStopTimeout *)
+    injection H as <-. apply (Hstop n0); try reflexivity; assumption.
 Qed.
 
 Lemma queued_can_be_accepted s k c :
@@ -596,10 +743,17 @@ Proof.
     - apply Nat.eqb_eq in Ek. subst k0. rewrite Hk in *. injection Hk0 as <-.
       eexists. split; [reflexivity|]. simpl. auto.
     - exact Hkeep. }
-  destruct l; unfold step in H; dmatch H; try (injection H as <-; simpl; exact Hkeep).
-  - injection H as <-. destruct (isnil (rem (cur s) (fdh s n0))); simpl; [|exact Hkeep].
+  assert (Hstop : forall a0, exists c', nth_error (conns (stop_old s a0)) k = Some c' /\ accepted_by (cst c') = Some i /\
+             caddr c' = caddr c /\ csite c' = csite c /\ cborn c' = cborn c).
+  { intros a0. destruct (stop_old_fields s a0) as (_ & _ & _ & _ & _ & _ & _ & _ & Fc). rewrite Fc.
+    destruct (isnil (rem (cur s) (fdh s a0))); [|exact Hkeep].
     unfold reset_queued. rewrite nth_error_map, Hk. simpl.
+    destruct (cst c) eqn:Ec; try discriminate; eexists; (split; [reflexivity|]); rewrite Ec; auto. }
+  destruct l; unfold step in H; dmatch H; try (injection H as <-; simpl; exact Hkeep).
+  - (* LListenFail *)
+    injection H as <-. simpl. rewrite nth_error_map, Hk. simpl.
     destruct (cst c) eqn:Ec; try discriminate; eexists; (split; [reflexivity|]); rewrite Ec; auto.
+  - injection H as <-. simpl. apply Hstop.
   - injection H as <-. simpl. rewrite nth_error_app1 by (apply nth_error_Some; congruence). exact Hkeep.
   - injection H as <-. simpl. apply Hset; [exact E|]. intros ->. rewrite Hk in E. injection E as <-. rewrite E0 in Hi. discriminate.
   - injection H as <-. simpl. apply Hset; [exact E|]. intros ->. rewrite Hk in E. injection E as <-. rewrite E0 in Hi. discriminate.
@@ -608,6 +762,7 @@ Proof.
   - injection H as <-. simpl. apply Hset; [exact E|]. intros ->. rewrite Hk in E. injection E as <-. rewrite E0 in Hi. discriminate.
   - injection H as <-. simpl. apply Hset; [exact E|]. intros ->. rewrite Hk in E. injection E as <-. rewrite E0 in Hi. discriminate.
   - injection H as <-. simpl. apply Hset; [exact E|]. intros ->. rewrite Hk in E. injection E as <-. rewrite E0 in Hi. exact Hi.
+  - injection H as <-. simpl. apply Hstop.
 Qed.
 
 Lemma one_instance_per_conn ls : forall s s' k c i,
@@ -653,29 +808,79 @@ Proof.
     + unfold is_new in Hn. rewrite E in Hn. exact Hn.
 Qed.
 
-(* T7: a failed reload leaves the old instance exactly as it was *)
+Lemma rem_notin x l : ~ In x l -> rem x l = l.
+Proof.
+  induction l as [|y l IH]; intros H; simpl; [reflexivity|].
+  destruct (Nat.eqb x y) eqn:E; simpl.
+  - apply Nat.eqb_eq in E. subst y. exfalso. apply H. left. reflexivity.
+  - rewrite IH; [reflexivity|]. intros Hin. apply H. right. exact Hin.
+Qed.
+
+(* T7: a failed reload — while loading, in a startup callback, at listen time — leaves the old
+   instance exactly as it was and nothing of the rejected instance n behind: every descriptor is
+   the old instance's; when a Listen failed the descriptors n had got are closed again, and the
+   only connections touched are those queued at sockets n had bound itself *)
 Lemma failed_reload_keeps_old s l s' :
-  reachable s -> (l = LLoadFail \/ l = LListenFail) -> step s l = Some s' ->
-  cur s' = cur s /\ rst s' = RIdle /\ conns s' = conns s /\ cfgs s' = cfgs s /\
-  (forall a, sid s' a = sid s a /\ fdh s' a = fdh s a /\ acc s' a = acc s a) /\
+  reachable s -> (l = LLoadFail \/ l = LCbFail \/ l = LListenFail) -> step s l = Some s' ->
+  exists n, pending s = Some n /\
+  cur s' = cur s /\ rst s' = RIdle /\ cfgs s' = cfgs s /\
+  (forall a, sid s' a = sid s a /\ acc s' a = acc s a /\ fdh s' a = rem n (fdh s a)) /\
+  (l <> LListenFail -> conns s' = conns s /\ forall a, fdh s' a = fdh s a) /\
+  (forall k c, nth_error (conns s) k = Some c -> In (caddr c) (addrs_of s (cur s)) ->
+               nth_error (conns s') k = Some c) /\
+  (forall a i, In i (fdh s' a) -> i = cur s' /\ In a (addrs_of s' (cur s'))) /\
   (forall a, In a (addrs_of s' (cur s')) -> In (cur s') (fdh s' a) /\ In (cur s') (acc s' a)) /\
   (forall a i, In i (acc s' a) -> i = cur s').
 Proof.
   intros Hr Hl H. assert (Hr' := reachable_step _ _ _ Hr H).
-  assert (Hown : owner s' = cur s' /\ rst s' = RIdle /\ cur s' = cur s /\ conns s' = conns s /\ cfgs s' = cfgs s /\
-                 (forall a, sid s' a = sid s a /\ fdh s' a = fdh s a /\ acc s' a = acc s a)).
-  { destruct Hl as [-> | ->]; unfold step in H; dmatch H; injection H as <-; unfold owner; simpl; auto 10. }
-  destruct Hown as (Ho & Hi & Hc & Hcs & Hcf & Hsame).
-  repeat split; try assumption; try apply Hsame.
-  - rewrite <- Ho in H0 |- *. apply (owner_serves s' a Hr' H0).
-  - rewrite <- Ho in H0 |- *. apply (owner_serves s' a Hr' H0).
-  - intros a i Hin. destruct (only_live_instances_accept s' a i Hr' Hin) as (_ & _ & [E|(E & _)]); [exact E|].
-    unfold pending in E. rewrite Hi in E. discriminate.
+  assert (Hinv := inv_reachable _ Hr). assert (Hinv' := inv_reachable _ Hr').
+  assert (Hidle : forall n, pending s = Some n -> rst s' = RIdle -> cur s' = cur s ->
+            (forall a i, In i (fdh s' a) -> i = cur s' /\ In a (addrs_of s' (cur s'))) /\
+            (forall a, In a (addrs_of s' (cur s')) -> In (cur s') (fdh s' a) /\ In (cur s') (acc s' a)) /\
+            (forall a i, In i (acc s' a) -> i = cur s')).
+  { intros n Hp Hi Hc. assert (Ho : owner s' = cur s') by (unfold owner; rewrite Hi; reflexivity).
+    split; [|split].
+    - intros a i Hin. destruct (i_fd _ Hinv' a i Hin) as [Hx|(Hx & _)]; [exact Hx|].
+      unfold pending in Hx. rewrite Hi in Hx. discriminate.
+    - intros a Ha. rewrite <- Ho in Ha |- *. apply (owner_serves s' a Hr' Ha).
+    - intros a i Hin. destruct (only_live_instances_accept s' a i Hr' Hin) as (_ & _ & [E|(E & _)]); [exact E|].
+      unfold pending in E. rewrite Hi in E. discriminate. }
+  destruct Hl as [-> | [-> | ->]]; unfold step in H; dmatch H; injection H as <-.
+  - (* LLoadFail *)
+    assert (Hp : pending s = Some n) by (unfold pending; rewrite E; reflexivity).
+    assert (Hno : forall a, ~ In n (fdh s a)).
+    { pose proof (i_phase _ Hinv) as Hph. unfold phase_inv in Hph. rewrite E in Hph. apply Hph. }
+    exists n. split; [exact Hp|]. simpl.
+    split; [reflexivity|]. split; [reflexivity|]. split; [reflexivity|].
+    split; [intros a; rewrite (rem_notin _ _ (Hno a)); auto|].
+    split; [auto|]. split; [auto|]. apply (Hidle n Hp); reflexivity.
+  - (* LCbFail *)
+    assert (Hp : pending s = Some n) by (unfold pending; rewrite E; reflexivity).
+    assert (Hno : forall a, ~ In n (fdh s a)).
+    { pose proof (i_phase _ Hinv) as Hph. unfold phase_inv in Hph. rewrite E in Hph. apply Hph. }
+    exists n. split; [exact Hp|]. simpl.
+    split; [reflexivity|]. split; [reflexivity|]. split; [reflexivity|].
+    split; [intros a; rewrite (rem_notin _ _ (Hno a)); auto|].
+    split; [auto|]. split; [auto|]. apply (Hidle n Hp); reflexivity.
+  - (* LListenFail *)
+    assert (Hp : pending s = Some n) by (unfold pending; rewrite E; reflexivity).
+    exists n. split; [exact Hp|]. simpl.
+    split; [reflexivity|]. split; [reflexivity|]. split; [reflexivity|].
+    split; [auto|]. split; [intros Hx; contradiction|]. split; [|apply (Hidle n Hp); reflexivity].
+    intros k c Hk Ha. rewrite nth_error_map, Hk. simpl.
+    destruct (cst c) eqn:Ec; try reflexivity.
+    destruct (isnil (rem n (fdh s (caddr c)))) eqn:Enil; [|reflexivity].
+    exfalso. apply isnil_true in Enil.
+    destruct (i_old _ Hinv _ Ha) as (Hin & _); [unfold old_live; rewrite E; exact I|].
+    assert (Hin' : In (cur s) (rem n (fdh s (caddr c)))).
+    { apply rem_In. split; [exact Hin|]. pose proof (i_phase _ Hinv) as Hph. unfold phase_inv, new_ok in Hph.
+      rewrite E in Hph. lia. }
+    rewrite Enil in Hin'. contradiction.
 Qed.
 
 (* an instance that has not got as far as spawning its acceptors has not taken any connection *)
 Definition fresh_ok (s : state) (i : nat) : Prop :=
-  match rst s with RLoad n | RListen n _ => i <> n | _ => True end.
+  match rst s with RLoad n | RListen n _ | RCb n => i <> n | _ => True end.
 
 Definition Fresh (s : state) : Prop :=
   forall k c i, nth_error (conns s) k = Some c -> accepted_by (cst c) = Some i -> fresh_ok s i.
@@ -706,8 +911,7 @@ Proof.
   - intros k c i Hk Hi. exact I.
   - intros k c i Hk Hi. exact I.
   - (* LStop *)
-    intros k c i Hk Hi. unfold fresh_ok.
-    destruct (isnil (rem (cur s) (fdh s n0))); simpl; exact I.
+    intros k c i Hk Hi. exact I.
   - intros k c i Hk Hi. exact I.
   - (* LNew *)
     intros k c i Hk Hi. simpl in Hk. unfold fresh_ok. simpl.
@@ -721,7 +925,8 @@ Proof.
     destruct (i_acc _ Hinv _ _ E1) as (_ & _ & Hw).
     assert (Hph := i_phase _ Hinv). unfold fresh_ok, is_new, phase_inv, new_ok in *.
     destruct (rst s); try exact I.
-    + destruct Hw as [[-> _]|[]]. destruct Hph as (_ & Hlt). lia.
+    + destruct Hw as [[-> _]|[]]. destruct Hph as ((_ & Hlt) & _). lia.
+    + destruct Hw as [[-> _]|[]]. destruct Hph as ((_ & Hlt) & _). lia.
     + destruct Hw as [[-> _]|[]]. destruct Hph as ((_ & Hlt) & _). lia.
   - (* LAnswer *)
     eapply Hupd; [reflexivity | exact E | reflexivity |].
@@ -733,6 +938,12 @@ Proof.
   - eapply Hupd; [reflexivity | exact E | reflexivity |].
     intros j Hj. apply (HF k c j E). rewrite E0. exact Hj.
   - (* LObs *)
+    apply Hsame; reflexivity.
+  - (* LCbOk *)
+    intros k c i Hk Hi. simpl in Hk. unfold fresh_ok. simpl. specialize (HF k c i Hk Hi). unfold fresh_ok in HF. rewrite E in HF. exact HF.
+  - intros k c i Hk Hi. exact I.
+  - intros k c i Hk Hi. exact I.
+  - (* LFds *)
     apply Hsame; reflexivity.
 Qed.
 
@@ -862,6 +1073,36 @@ Proof.
   destruct (Nat.eq_dec (sid s' a) (sid s a)) as [E|E]; [congruence|]. exfalso. exact (Hsid a E X2).
 Qed.
 
+(* one old server is shut down: only connections queued at a socket that is now gone change *)
+Lemma rel_stop_old s n a t p s1 :
+  Inv s -> rst s = RStop n (a :: t) -> Rel s p ->
+  cur s1 = cur s -> cfgs s1 = cfgs s -> rst s1 = RStop n t -> sid s1 = sid s ->
+  conns s1 = conns (stop_old s a) -> Rel s1 p.
+Proof.
+  intros Hinv E [Hok Hc Ha Hcl Hp Hrq Hb Hu] E1 E2 E3 E4 E5.
+  destruct (stop_old_fields s a) as (_ & _ & _ & _ & _ & _ & _ & _ & Fc). rewrite Fc in E5. clear Fc.
+  assert (Epn : pending s = Some n) by (unfold pending; rewrite E; reflexivity).
+  assert (Epn1 : pending s1 = Some n) by (unfold pending; rewrite E3; reflexivity).
+  constructor; unfold addrs_of, fate_of in *; rewrite ?E1, ?E2, ?E4, ?Epn1; try rewrite Epn in *; try assumption.
+  - rewrite E5. set (f := rem (cur s) (fdh s a)) in *.
+    destruct (isnil f) eqn:Enil; [|exact Hrq].
+    unfold reset_queued. apply Forall2_map_l. eapply Forall2_impl2; [|exact Hrq].
+    intros c q HQ. destruct HQ as (Q1 & Q2 & Q3 & Q4).
+    destruct (cst c) eqn:Ec; try (unfold Rq; rewrite Ec; auto; fail).
+    destruct (Nat.eqb (caddr c) a) eqn:Ea; [|unfold Rq; rewrite Ec; auto].
+    apply Nat.eqb_eq in Ea. unfold Rq. simpl. split; [exact Q1|]. split; [exact Q2|]. split; [exact Q3|].
+    intros Ho. destruct (Q4 Ho) as (A1 & A2 & A3 & A4).
+    split; [exact A1|]. split; [exact A2|]. split; [intros; discriminate|].
+    intros Hm. exfalso. destruct (A4 Hm) as (B1 & B2 & B3).
+    (* the new instance holds a descriptor at a *)
+    destruct Hinv as [_ _ Hph _ _ _ _]. unfold phase_inv in Hph. rewrite E in Hph.
+    destruct Hph as ((_ & Hlt) & _ & _ & _ & Hnew & _).
+    destruct (Hnew a) as (Hfd & _); [rewrite <- Ea; apply B2; reflexivity|].
+    assert (Hin : In n f) by (unfold f; apply rem_In; split; [exact Hfd | lia]).
+    apply isnil_true in Enil. rewrite Enil in Hin. contradiction.
+  - intros Hx. unfold spawning. rewrite E3. exact I.
+Qed.
+
 Lemma rel_step a0 s l s' :
   reachable s -> Rel s (scan a0 (hist s)) -> step s l = Some s' -> Rel s' (scan a0 (hist s')).
 Proof.
@@ -944,14 +1185,26 @@ Proof.
     rewrite Hnu, Hcalls.
     constructor; simpl; unfold pending; simpl; auto.
     + rewrite Hok. reflexivity.
-    + apply Forall2_map_r. eapply Forall2_impl_In; [|exact Hrq]. intros c q Hin (Q1 & Q2 & Q3 & Q4). unfold Rq. simpl.
-      repeat (split; [assumption|]). intros Ho. destruct (Q4 Ho) as (A1 & A2 & A3 & A4).
-      split; [apply rem_In; split; [exact A1 | lia]|]. split; [intros; discriminate|].
-      split.
-      * intros i Hi. apply rem_In. split; [apply A3; exact Hi|].
-        apply In_nth_error in Hin as (k & Hk). specialize (Hfresh k c i Hk Hi). unfold fresh_ok in Hfresh.
-        rewrite E in Hfresh. exact Hfresh.
-      * intros Hm. destruct (A4 Hm) as (B1 & B2 & B3). split; [exact B1|]. split; [intros; discriminate | exact B3].
+    + apply Forall2_map_r. apply Forall2_map_l. eapply Forall2_impl_In; [|exact Hrq]. intros c q Hin (Q1 & Q2 & Q3 & Q4).
+      destruct (reset_conn_cases n s c) as [Hc'|(Ec & En & Hc')]; cbv zeta in Hc'; rewrite Hc'.
+      * unfold Rq. simpl.
+        repeat (split; [assumption|]). intros Ho. destruct (Q4 Ho) as (A1 & A2 & A3 & A4).
+        split; [apply rem_In; split; [exact A1 | lia]|]. split; [intros; discriminate|].
+        split.
+        -- intros i Hi. apply rem_In. split; [apply A3; exact Hi|].
+           apply In_nth_error in Hin as (k & Hk). specialize (Hfresh k c i Hk Hi). unfold fresh_ok in Hfresh.
+           rewrite E in Hfresh. exact Hfresh.
+        -- intros Hm. destruct (A4 Hm) as (B1 & B2 & B3). split; [exact B1|]. split; [intros; discriminate | exact B3].
+      * unfold Rq. simpl. rewrite Ec in Q3. simpl in Q3.
+        split; [exact Q1|]. split; [exact Q2|]. split; [exact Q3|].
+        intros Ho. destruct (Q4 Ho) as (A1 & A2 & A3 & A4).
+        split; [apply rem_In; split; [exact A1 | lia]|]. split; [intros; discriminate|].
+        split; [intros; discriminate|].
+        intros Hm. exfalso. destruct (A4 Hm) as (B1 & _ & _).
+        destruct (i_old _ Hinv _ B1) as (Hin0 & _); [unfold old_live; rewrite E; exact I|].
+        apply isnil_true in En.
+        assert (Hin1 : In (cur s) (rem n (fdh s (caddr c)))) by (apply rem_In; split; [exact Hin0 | lia]).
+        rewrite En in Hin1. contradiction.
     + intros a b Hin. destruct (Hb a b Hin) as (X1 & X2 & X3). split; [exact X1|]. split; [exact X2|]. intros; discriminate.
     + discriminate.
   - (* LAdv *)
@@ -962,28 +1215,9 @@ Proof.
     apply (rel_same s); try reflexivity; first [constructor; assumption | (unfold pending; simpl; rewrite E; reflexivity) | (intros a Hx; simpl in Hx; congruence) | (unfold spawning; simpl; rewrite E; tauto)].
   - (* LStop *)
     dmatch H. injection H as <-. rename n0 into a1.
-    assert (Epn : pending s = Some n) by (unfold pending; rewrite E; reflexivity).
-    set (f := rem (cur s) (fdh s a1)) in *.
-    destruct (isnil f) eqn:Enil.
-    + (* the socket at a1 is closed: queued connections there are reset *)
-      simpl hist. fold p. simpl in Hr', Hinv'.
-      constructor; simpl; unfold pending; simpl; try assumption; [rewrite Hp, Epn; reflexivity | | rewrite Epn in Hb; exact Hb | intros Hx; specialize (Hu Hx); unfold spawning in *; simpl; rewrite E in Hu; exact Hu].
-      unfold reset_queued. apply Forall2_map_l. eapply Forall2_impl2; [|exact Hrq].
-      intros c q HQ. rewrite Epn in HQ. destruct HQ as (Q1 & Q2 & Q3 & Q4).
-      destruct (cst c) eqn:Ec; try (unfold Rq; rewrite Ec; auto; fail).
-      destruct (Nat.eqb (caddr c) a1) eqn:Ea; [|unfold Rq; rewrite Ec; auto].
-      apply Nat.eqb_eq in Ea. unfold Rq. simpl. split; [exact Q1|]. split; [exact Q2|]. split; [exact Q3|].
-      intros Ho. destruct (Q4 Ho) as (A1 & A2 & A3 & A4).
-      split; [exact A1|]. split; [exact A2|]. split; [intros; discriminate|].
-      intros Hm. exfalso. destruct (A4 Hm) as (B1 & B2 & B3).
-      (* the new instance holds a descriptor at a1 *)
-      destruct Hinv as [_ _ Hph _ _ _]. unfold phase_inv in Hph. rewrite E in Hph.
-      destruct Hph as ((_ & Hlt) & _ & _ & _ & Hnew).
-      destruct (Hnew a1) as (Hfd & _); [rewrite <- Ea; apply B2; reflexivity|].
-      assert (Hin : In n f) by (unfold f; apply rem_In; split; [exact Hfd | lia]).
-      apply isnil_true in Enil. rewrite Enil in Hin. contradiction.
-    + simpl hist. fold p.
-      apply (rel_same s); try reflexivity; first [constructor; assumption | (unfold pending; simpl; rewrite E; reflexivity) | (intros a Hx; simpl in Hx; congruence) | (unfold spawning; simpl; rewrite E; tauto)].
+    destruct (stop_old_fields s a1) as (F1 & F2 & F3 & _ & _ & F6 & _).
+    simpl hist. rewrite F6. fold p.
+    apply (rel_stop_old s n a1 l p); simpl; auto. constructor; assumption.
   - (* LReturn *)
     dmatch H. injection H as <-. simpl hist. rewrite scan_cons. fold p.
     assert (Epn : pending s = Some n) by (unfold pending; rewrite E; reflexivity).
@@ -1108,6 +1342,40 @@ Proof.
       * constructor; simpl; unfold pending; simpl; try assumption; [rewrite Hok; reflexivity|].
         intros a' b' [Heq|Hin]; [injection Heq as <- <-; auto | apply Hb; exact Hin].
     + constructor; simpl; unfold pending; simpl; assumption.
+  - (* LCbOk *)
+    dmatch H. injection H as <-. simpl hist. fold p.
+    apply (rel_same s); try reflexivity; first [constructor; assumption | (unfold pending; simpl; rewrite E; reflexivity) | (intros a Hx; simpl in Hx; congruence) | (unfold spawning; simpl; rewrite E; tauto)].
+  - (* LCbFail *)
+    dmatch H. injection H as <-. simpl hist. rewrite scan_cons. fold p.
+    assert (Epn : pending s = Some n) by (unfold pending; rewrite E; reflexivity).
+    rewrite Epn in *. apply Nat.eqb_eq in E0.
+    unfold spec_step. rewrite Hp, E0. simpl.
+    assert (Hnu : sp_used p = false).
+    { destruct (sp_used p) eqn:Eu; [|reflexivity]. exfalso. specialize (Hu eq_refl). unfold spawning in Hu. rewrite E in Hu. exact Hu. }
+    destruct (pending_new_ok s n Hinv Epn) as (Hn1 & Hn2). assert (Hcalls : sp_calls p = n) by lia.
+    rewrite Hnu, Hcalls.
+    constructor; simpl; unfold pending; simpl; auto.
+    + rewrite Hok. reflexivity.
+    + apply Forall2_map_r. eapply Forall2_impl_In; [|exact Hrq]. intros c q Hin (Q1 & Q2 & Q3 & Q4). unfold Rq. simpl.
+      repeat (split; [assumption|]). intros Ho. destruct (Q4 Ho) as (A1 & A2 & A3 & A4).
+      split; [apply rem_In; split; [exact A1 | lia]|]. split; [intros; discriminate|].
+      split.
+      * intros i Hi. apply rem_In. split; [apply A3; exact Hi|].
+        apply In_nth_error in Hin as (k & Hk). specialize (Hfresh k c i Hk Hi). unfold fresh_ok in Hfresh.
+        rewrite E in Hfresh. exact Hfresh.
+      * intros Hm. destruct (A4 Hm) as (B1 & B2 & B3). split; [exact B1|]. split; [intros; discriminate | exact B3].
+    + intros a b Hin. destruct (Hb a b Hin) as (X1 & X2 & X3). split; [exact X1|]. split; [exact X2|]. intros; discriminate.
+    + discriminate.
+  - (* LStopTimeout: the log line is not a client-visible event *)
+    dmatch H. injection H as <-. rename n0 into a1.
+    destruct (stop_old_fields s a1) as (F1 & F2 & F3 & _ & _ & F6 & _).
+    simpl hist. rewrite F6, scan_cons. fold p.
+    assert (Epn : pending s = Some n) by (unfold pending; rewrite E; reflexivity).
+    unfold spec_step. rewrite Hp, Epn.
+    apply (rel_stop_old s n a1 l p); simpl; auto. constructor; assumption.
+  - (* LFds: not a client-visible event *)
+    injection H as <-. simpl hist. rewrite scan_cons. fold p. unfold spec_step.
+    constructor; simpl; unfold pending; simpl; assumption.
 Qed.
 
 Lemma rel_init a0 blocked : Rel (init a0 blocked) (scan a0 (hist (init a0 blocked))).
@@ -1164,8 +1432,8 @@ Proof.
   { unfold natlist_eqb. induction a as [|u a IHa]; intros [|v b]; simpl; intros Hx; try discriminate; [reflexivity|].
     apply andb_true_iff in Hx as (X1 & X2). apply Nat.eqb_eq in X1. f_equal; [exact X1 | apply IHa; exact X2]. }
   assert (Hb : forall a b, bool_eqb a b = true -> a = b) by (intros [|] [|]; simpl; congruence).
-  destruct x as [a1 f1|r1|k1 a1 s1|k1 [[[m1 t1] c1]|]|a1 o1 d1],
-           y as [a2 f2|r2|k2 a2 s2|k2 [[[m2 t2] c2]|]|a2 o2 d2]; simpl in H1; try discriminate;
+  destruct x as [a1 f1|r1|k1 a1 s1|k1 [[[m1 t1] c1]|]|a1 o1 d1|a1|a1 n1],
+           y as [a2 f2|r2|k2 a2 s2|k2 [[[m2 t2] c2]|]|a2 o2 d2|a2|a2 n2]; simpl in H1; try discriminate;
   repeat match goal with
     | H : _ && _ = true |- _ => apply andb_true_iff in H as (? & ?)
     | H : Nat.eqb _ _ = true |- _ => apply Nat.eqb_eq in H; subst
@@ -1246,4 +1514,212 @@ Proof.
     destruct (Hans s c i Hk Ec eq_refl) as (s' & X1 & X2 & X3 & X4 & X5).
     exists [LRecv k], s', i. repeat split; try assumption.
     apply (accepted_by_current_or_later s k c i Hr Hk). rewrite Ec. reflexivity.
+Qed.
+
+(* ---------------------------------------------------------------------------------- *)
+(* deepening: nothing leaks; startup callbacks run before the acceptors; drain timeouts *)
+
+(* every descriptor of a listening socket is held by the instance in force (for an address of its
+   configuration) or by the instance being started (for an address of its configuration):
+   a failed reload leaves none behind *)
+Lemma no_descriptor_leak s a i :
+  reachable s -> In i (fdh s a) ->
+  (i = cur s /\ In a (addrs_of s (cur s))) \/ (pending s = Some i /\ In a (addrs_of s i)).
+Proof. intros Hr Hi. exact (i_fd _ (inv_reachable _ Hr) a i Hi). Qed.
+
+(* configurations of existing instances never change *)
+Lemma cfgs_stable s l s' i :
+  step s l = Some s' -> i < length (cfgs s) ->
+  fate_of s' i = fate_of s i /\ addrs_of s' i = addrs_of s i /\ length (cfgs s) <= length (cfgs s').
+Proof.
+  intros H Hi. unfold fate_of, addrs_of.
+  destruct l; unfold step in H; dmatch H; injection H as <-; simpl;
+    try (repeat match goal with
+                | |- context [cfgs (stop_old ?s0 ?a0)] => rewrite (proj1 (proj2 (stop_old_fields s0 a0)))
+                end; auto; fail).
+  rewrite app_nth1 by exact Hi. rewrite app_length. simpl. repeat split; lia.
+Qed.
+
+Lemma cfgs_stable_run ls : forall s s' i,
+  run s ls = Some s' -> i < length (cfgs s) ->
+  fate_of s' i = fate_of s i /\ addrs_of s' i = addrs_of s i /\ length (cfgs s) <= length (cfgs s').
+Proof.
+  induction ls as [|l r IH]; simpl; intros s s' i H Hi.
+  - injection H as <-. auto.
+  - destruct (step s l) as [s1|] eqn:E; [|discriminate].
+    destruct (cfgs_stable _ _ _ i E Hi) as (A1 & A2 & A3).
+    destruct (IH s1 s' i H) as (B1 & B2 & B3); [lia|]. repeat split; try congruence; lia.
+Qed.
+
+(* the instance in force was started from a valid configuration *)
+Lemma cur_fate_zero_step s l s' :
+  Inv s -> fate_of s (cur s) = 0 -> step s l = Some s' -> fate_of s' (cur s') = 0.
+Proof.
+  intros Hinv H0 H.
+  destruct (cfgs_stable _ _ _ (cur s) H (i_cur _ Hinv)) as (A & _ & _).
+  destruct l; try (assert (Ec : cur s' = cur s) by
+    (unfold step in H; dmatch H; injection H as <-; simpl;
+     repeat match goal with
+            | |- context [cur (stop_old ?s0 ?a0)] => rewrite (proj1 (stop_old_fields s0 a0))
+            end; reflexivity); rewrite Ec, A; exact H0).
+  (* LReturn *)
+  unfold step in H. dmatch H. injection H as <-. unfold fate_of. simpl.
+  pose proof (i_phase _ Hinv) as Hph. unfold phase_inv in Hph. rewrite E in Hph.
+  destruct Hph as (_ & _ & _ & Hf & _). exact Hf.
+Qed.
+
+Lemma cur_fate_zero s : reachable s -> fate_of s (cur s) = 0.
+Proof.
+  intros (a0 & b & ls & Hnd & Hr).
+  assert (H0 : fate_of (init a0 b) (cur (init a0 b)) = 0) by reflexivity.
+  assert (Hi0 := inv_init a0 b Hnd).
+  revert Hr H0 Hi0. generalize (init a0 b). induction ls as [|l r IH]; simpl; intros s0 Hr H0 Hi0.
+  - injection Hr as <-. exact H0.
+  - destruct (step s0 l) as [s1|] eqn:E; [|discriminate].
+    apply (IH s1 Hr); [eapply cur_fate_zero_step; eauto | eapply inv_step; eauto].
+Qed.
+
+(* an instance whose configuration is not valid never has an acceptor: neither while its reload
+   is in progress nor at any later time *)
+Lemma failed_never_accepts s i a :
+  reachable s -> fate_of s i <> 0 -> ~ In i (acc s a).
+Proof.
+  intros Hr Hf Hin.
+  destruct (only_live_instances_accept s a i Hr Hin) as (_ & _ & [-> | (_ & H0)]); [|contradiction].
+  apply Hf. apply cur_fate_zero. exact Hr.
+Qed.
+
+(* while the configuration of the new instance n is loaded and while its startup callbacks run,
+   n holds no descriptor, has no acceptor and has taken no connection: the callbacks run BEFORE
+   startServers *)
+Lemma not_listening_before_callbacks_done s n :
+  reachable s -> (rst s = RLoad n \/ rst s = RCb n) ->
+  (forall a, ~ In n (fdh s a)) /\ (forall a, ~ In n (acc s a)) /\
+  (forall k c, nth_error (conns s) k = Some c -> accepted_by (cst c) <> Some n).
+Proof.
+  intros Hr Hph. assert (Hinv := inv_reachable _ Hr). assert (HF := fresh_reachable _ Hr).
+  assert (Hno : forall a, ~ In n (fdh s a)).
+  { pose proof (i_phase _ Hinv) as P. unfold phase_inv in P. destruct Hph as [E|E]; rewrite E in P; apply P. }
+  split; [exact Hno|]. split.
+  - intros a Hin. destruct (i_acc _ Hinv a n Hin) as (Hfd & _). exact (Hno a Hfd).
+  - intros k c Hk Hi. specialize (HF k c n Hk Hi). unfold fresh_ok in HF.
+    destruct Hph as [E|E]; rewrite E in HF; apply HF; reflexivity.
+Qed.
+
+(* a startup callback of the new instance returns an error: the reload ends there, with an error,
+   before any listener of the rejected instance existed; everything is exactly as it was, and the
+   rejected instance never accepts anything, now or later *)
+Lemma failed_startup_callback_keeps_old s s' :
+  reachable s -> step s LCbFail = Some s' ->
+  exists n, rst s = RCb n /\ fate_of s n = 3 /\ hist s' = ERet 1 :: hist s /\
+    cur s' = cur s /\ rst s' = RIdle /\ conns s' = conns s /\ cfgs s' = cfgs s /\
+    (forall a, sid s' a = sid s a /\ fdh s' a = fdh s a /\ acc s' a = acc s a) /\
+    (forall a, ~ In n (fdh s' a) /\ ~ In n (acc s' a)) /\
+    (forall k c, nth_error (conns s') k = Some c -> accepted_by (cst c) <> Some n) /\
+    (forall a, In a (addrs_of s' (cur s')) -> In (cur s') (fdh s' a) /\ In (cur s') (acc s' a)) /\
+    (forall ls s'', run s' ls = Some s'' -> forall a, ~ In n (acc s'' a)).
+Proof.
+  intros Hr H. assert (Hr' := reachable_step _ _ _ Hr H).
+  destruct (failed_reload_keeps_old s LCbFail s' Hr (or_intror (or_introl eq_refl)) H)
+    as (n' & Hp & K1 & K2 & K3 & K4 & K5 & K6 & K7 & K8 & K9).
+  assert (Hstep := H). unfold step in H. dmatch H. injection H as <-.
+  apply Nat.eqb_eq in E0.
+  destruct (not_listening_before_callbacks_done s n Hr (or_intror E)) as (N1 & N2 & N3).
+  exists n. simpl. repeat split; auto.
+  - apply (K8 a H).
+  - apply (K8 a H).
+  - intros ls s'' Hrun a.
+    assert (Hlt : n < length (cfgs s)).
+    { pose proof (i_phase _ (inv_reachable _ Hr)) as P. unfold phase_inv, new_ok in P. rewrite E in P. lia. }
+    destruct (cfgs_stable_run ls _ s'' n Hrun) as (F & _); [simpl; exact Hlt|].
+    apply failed_never_accepts; [eapply reachable_run; eauto|].
+    rewrite F. unfold fate_of in *. simpl. rewrite E0. discriminate.
+Qed.
+
+(* once the acceptors of the new instance have been spawned the reload cannot fail: the only way
+   out of the spawn / stop-old phases is the successful return *)
+Lemma no_failure_after_spawn s l s' :
+  spawning s -> step s l = Some s' ->
+  spawning s' \/ (l = LReturn /\ hist s' = ERet 0 :: hist s /\ rst s' = RIdle).
+Proof.
+  intros Hs H. unfold spawning in *.
+  destruct l; unfold step in H; dmatch H; try contradiction; injection H as <-; simpl;
+    repeat match goal with
+           | |- context [rst (stop_old ?s0 ?a0)] => rewrite (proj1 (proj2 (proj2 (proj2 (proj2 (stop_old_fields s0 a0))))))
+           end; try rewrite E; auto.
+Qed.
+
+(* the stop-old phase can always be carried through, whatever connections the old instance holds *)
+Lemma stop_phase_completes todo : forall s n,
+  reachable s -> rst s = RStop n todo ->
+  exists s', run s (map (fun _ => LStop) todo ++ [LReturn]) = Some s' /\
+             cur s' = n /\ rst s' = RIdle /\ hist s' = ERet 0 :: hist s /\
+             (forall a i, In i (acc s' a) -> i = n) /\
+             (forall a, In a (addrs_of s' n) -> In n (fdh s' a) /\ In n (acc s' a)).
+Proof.
+  induction todo as [|a t IH]; intros s n Hr E.
+  - simpl. rewrite E. eexists. split; [reflexivity|]. simpl. split; [reflexivity|]. split; [reflexivity|]. split; [reflexivity|].
+    assert (Hst : step s LReturn = Some {| fdh := fdh s; sid := sid s; ext := ext s; acc := acc s; cfgs := cfgs s; cur := n;
+                  rst := RIdle; conns := conns s; hist := ERet 0 :: hist s |}) by (simpl; rewrite E; reflexivity).
+    destruct (return_installs_new _ _ Hr Hst) as (n' & Hp & Hc & _ & _ & _ & A & B). simpl in Hc. subst n'.
+    split; [exact B | exact A].
+  - simpl. rewrite E.
+    assert (Hst : step s LStop = Some (with_rst (stop_old s a) (RStop n t))) by (simpl; rewrite E; reflexivity).
+    destruct (IH _ n (reachable_step _ _ _ Hr Hst) eq_refl) as (s' & R & A1 & A2 & A3 & A4 & A5).
+    exists s'. split; [exact R|]. split; [exact A1|]. split; [exact A2|]. split; [|split; [exact A4 | exact A5]].
+    rewrite A3. simpl. rewrite (proj1 (proj2 (proj2 (proj2 (proj2 (proj2 (stop_old_fields s a))))))). reflexivity.
+Qed.
+
+(* a connection of the old server outlives the graceful timeout: the shutdown does to the sockets
+   exactly what a clean one does, the error is only logged, the connections the old instance
+   holds stay with it, and the reload is carried through to a successful return after which only
+   the new instance accepts *)
+Lemma drain_timeout_reload_succeeds s s1 :
+  reachable s -> step s LStopTimeout = Some s1 ->
+  exists n a t,
+    rst s = RStop n (a :: t) /\ rst s1 = RStop n t /\ hist s1 = EDrain a :: hist s /\
+    step s LStop = Some (with_rst (stop_old s a) (RStop n t)) /\
+    s1 = with_hist (with_rst (stop_old s a) (RStop n t)) (EDrain a) /\
+    (forall k c i, nth_error (conns s) k = Some c -> accepted_by (cst c) = Some i ->
+       exists c', nth_error (conns s1) k = Some c' /\ accepted_by (cst c') = Some i /\ caddr c' = caddr c /\ csite c' = csite c) /\
+    exists s', run s1 (map (fun _ => LStop) t ++ [LReturn]) = Some s' /\
+               cur s' = n /\ rst s' = RIdle /\ hist s' = ERet 0 :: hist s1 /\
+               (forall b i, In i (acc s' b) -> i = n) /\
+               (forall b, In b (addrs_of s' n) -> In n (fdh s' b) /\ In n (acc s' b)).
+Proof.
+  intros Hr H. assert (Hr1 := reachable_step _ _ _ Hr H). assert (Hstep := H).
+  unfold step in H. dmatch H. injection H as <-. rename n0 into a.
+  exists n, a, l. split; [reflexivity|]. split; [reflexivity|].
+  split; [simpl; rewrite (proj1 (proj2 (proj2 (proj2 (proj2 (proj2 (stop_old_fields s a))))))); reflexivity|].
+  split; [simpl; rewrite E; reflexivity|]. split; [reflexivity|]. split.
+  - intros k c i Hk Hi. destruct (accepted_stable_step _ _ _ _ _ _ Hstep Hk Hi) as (c' & A & B & C & D & _).
+    exists c'. auto.
+  - apply (stop_phase_completes l _ n Hr1). reflexivity.
+Qed.
+
+(* when no reload is in progress the process holds exactly ONE descriptor of the listening socket
+   of every served address — the serving instance's — and none of any other address *)
+Lemma all_same_nodup (x : nat) l : NoDup l -> (forall y, In y l -> y = x) -> l = [] \/ l = [x].
+Proof.
+  intros Hn Hall. destruct l as [|y [|z r]]; [left; reflexivity | right | exfalso].
+  - rewrite (Hall y) by (left; reflexivity). reflexivity.
+  - inversion Hn as [|? ? Hnotin _]; subst. apply Hnotin.
+    rewrite (Hall y) by (left; reflexivity). rewrite (Hall z) by (right; left; reflexivity). left. reflexivity.
+Qed.
+
+Lemma one_descriptor_when_idle s a :
+  reachable s -> rst s = RIdle ->
+  fdh s a = if mem a (addrs_of s (cur s)) then [cur s] else [].
+Proof.
+  intros Hr Hi. assert (Hinv := inv_reachable _ Hr).
+  assert (Hall : forall y, In y (fdh s a) -> y = cur s /\ In a (addrs_of s (cur s))).
+  { intros y Hy. destruct (i_fd _ Hinv a y Hy) as [Hx|(Hx & _)]; [exact Hx|].
+    unfold pending in Hx. rewrite Hi in Hx. discriminate. }
+  destruct (all_same_nodup (cur s) (fdh s a) (i_nd _ Hinv a)) as [E|E].
+  - intros y Hy. apply Hall. exact Hy.
+  - rewrite E. destruct (mem a (addrs_of s (cur s))) eqn:Em; [|reflexivity].
+    apply mem_In in Em. destruct (i_old _ Hinv a Em) as (Hin & _); [unfold old_live; rewrite Hi; exact I|].
+    rewrite E in Hin. contradiction.
+  - rewrite E. destruct (mem a (addrs_of s (cur s))) eqn:Em; [reflexivity|].
+    apply mem_false in Em. exfalso. apply Em. apply (Hall (cur s)). rewrite E. left. reflexivity.
 Qed.
